@@ -317,6 +317,12 @@ def check_raise(ctx, cname, f, r):
         detail="%s raises %s" % (cname, (canon or "?").rsplit(".", 1)[-1]), construct="raise:%s" % what)
 
 
+def _is_sentinel_lit(t, pol, names):
+    """The path literal says `<name> is _SENTINEL` (written that way and true, or written `is not` and false)."""
+    src = A.src(t)
+    return any((pol and src == "%s is _SENTINEL" % q) or (not pol and src == "%s is not _SENTINEL" % q) for q in names)
+
+
 def check_binding(ctx, cname, init, params, p, idx, attr, value):
     """self.<attr> = value at event idx of path p."""
     lits = p.literals()
@@ -329,7 +335,7 @@ def check_binding(ctx, cname, init, params, p, idx, attr, value):
         if rv is not None:
             v = rv
     naming_all = sorted(NAME_PARAMS.get(attr, set()) & set(params))
-    name_absent = any(pol and A.src(t) in ("%s is _SENTINEL" % q for q in naming_all) for t, pol in lits)
+    name_absent = any(_is_sentinel_lit(t, pol, naming_all) for t, pol in lits)
 
     def needs_no_name(kind):
         """A binding that does not look the method up by name is only right when the caller gave no name."""
@@ -349,7 +355,7 @@ def check_binding(ctx, cname, init, params, p, idx, attr, value):
             what = "the method named by parameter `%s`" % name.id
         elif isinstance(name, ast.Constant) and isinstance(name.value, str):
             naming = sorted(allowed_params & set(params))
-            no_name_given = any(pol and A.src(t) in ("%s is _SENTINEL" % q for q in naming) for t, pol in lits)
+            no_name_given = any(_is_sentinel_lit(t, pol, naming) for t, pol in lits)
             cast = name.value in CASTS.get((cls_short, attr), set())
             okn = cast or (name.value == canonical(attr) and (not naming or no_name_given))
             what = "the method '%s'" % name.value
